@@ -246,6 +246,40 @@ def check_tx(spec, ctx):
                 ctx.eq("utr_cds_sequence_concat", parts, mrna)
 
 
+def check_introns(spec, ctx):
+    """introns = span minus exons, also for exon lists in which exons overlap or nest (alternative splice sites written as one
+    non-coding model, nested annotation artefacts): the validation code documents that such exons count as one stretch"""
+    ex, strand = spec["exons"], spec["strand"]
+    ctx.nt("overlapping_exons" if rm.has_self_overlap(ex) else "disjoint_exons")
+    try:
+        tx = mktx({"exons": ex, "strand": strand, "exon_order": spec.get("exon_order")})
+        if spec.get("exon_order") and spec["exon_order"] != sorted(spec["exon_order"]):
+            ctx.label("exons_given_unsorted")
+    except Exception as e:
+        ctx.fail("transcript_with_overlapping_exons_refused", repr(e)[:120])
+        return
+    lo, hi = min(b[0] for b in ex), max(b[1] for b in ex)
+    covered = rm.posset(ex)
+    for name in ("chromosome_intron_location", "chunk_relative_intron_location"):
+        intr = getattr(tx, name)
+        got = sorted(rm.posset(rm.loc_blocks(intr))) if not intr.is_empty else []
+        ctx.eq("introns_are_span_minus_exons:" + name, got, sorted(set(range(lo, hi)) - covered))
+    sp_ = tx.chromosome_span
+    ctx.eq("span", (sp_.start, sp_.end), (lo, hi))
+    ctx.eq("start_end", (tx.start, tx.end), (lo, hi))
+    gl = tx.chromosome_gaps_location
+    ctx.eq("gaps_location", sorted(rm.posset(rm.loc_blocks(gl))) if not gl.is_empty else [], sorted(set(range(lo, hi)) - covered))
+
+
+@st.composite
+def strat_introns(draw, tier="quick"):
+    ex = draw(S.layout(max_k=5, allow_empty=False, allow_adjacent=True, allow_overlap=True, allow_nested=True, max_len=9, max_gap=5))
+    sp = {"exons": ex, "strand": draw(st.sampled_from(["+", "-"]))}
+    if len(ex) > 1 and draw(st.booleans()):
+        sp["exon_order"] = list(draw(st.permutations(list(range(len(ex))))))   # the lists handed to the constructor are not sorted
+    return sp
+
+
 @st.composite
 def strat_tx(draw, tier="quick"):
     big = tier == "thorough"
@@ -281,6 +315,8 @@ EX = [
 PROP = Prop(
     pid="C06",
     legs=[
+        Leg("introns", check_introns, strategy=strat_introns, n_quick=600, n_thorough=6000, must_hit=["overlapping_exons"],
+            rule="non-coding transcripts whose exons may touch, overlap or nest (1..5 exons, both strands): introns (chromosome and chunk-relative accessor), gaps, span and start/end against span minus the union of the exons"),
         Leg("transcript", check_tx, strategy=strat_tx, examples=EX, n_quick=900, n_thorough=9000, shards_quick=4,
             must_hit=["cds_reaches_3p&multi_exon", "cds_reaches_5p&multi_exon", "cds_on_exon_boundary", "single_exon_full_cds", "minus", "noncoding", "cds_with_skipped_base", "cds_with_overlapping_blocks", "chunk_cuts_transcript", "chunk_cuts_utr", "exons_given_unsorted"],
             rule="transcripts (1..5/6 exons, both strands, coding with the CDS a contiguous run [i,j) of the transcript biased to ends and exon boundaries, or non-coding), with/without sequence, on the whole chromosome or seen through a sequence chunk that contains/cuts/misses it; every transcript, CDS and chromosome position in span+-1, random intervals in each system, UTRs, introns"),
